@@ -47,7 +47,14 @@ def execute(case):
     if si != so:
         ck.label("rectangular")
     torch.manual_seed(case["lib_seed"])
-    layer = lib(lambda: T.nn.LinearLayerTT(list(si), list(so), list(rank), dtype=DT[dt], initializer=case["init"]))
+    # the argument lists stay with the caller, who may go on using them (here: extended after the construction)
+    arg_in, arg_out, arg_rank = list(si), list(so), list(rank)
+    layer = lib(lambda: T.nn.LinearLayerTT(arg_in, arg_out, arg_rank, dtype=DT[dt], initializer=case["init"]))
+    if case["xseed"] % 2:
+        arg_in.append(2)
+        arg_out.append(3)
+        arg_rank.append(1)
+        ck.label("caller_lists_extended")
     g = core.rng(case["xseed"])
     with torch.no_grad():
         layer.bias.copy_(core.payload(list(so), dt, "gauss", g))
